@@ -21,7 +21,11 @@ NAMES = ['SDML', 'SDML_Supervised']
 @st.composite
 def case_strategy(draw, name):
   desc = draw(gen.dataset_desc(dmax=6, scales=False))
-  return dict(est=name, desc=desc, prior=draw(st.sampled_from(['identity', 'covariance', 'random', 'array'])),
+  prior = draw(st.sampled_from(['identity', 'covariance', 'random', 'array']))
+  if draw(st.integers(0, 2)) == 0:
+    desc['logscale'] = draw(st.sampled_from([-5, -5, -4, -3, 2, 3]))      # the objective is scale-covariant: tiny / large features
+    prior = draw(st.sampled_from(['covariance', 'covariance', 'identity', 'array']))   # 'covariance' follows the data scale
+  return dict(est=name, desc=desc, prior=prior,
               aseed=draw(st.integers(0, 999)), seed=draw(st.integers(0, 999)),
               logsparsity=draw(st.floats(-3, 0, allow_nan=False)),
               beyond=draw(st.integers(0, 4)) == 0, frac=draw(st.floats(0.02, 0.5, allow_nan=False)),
